@@ -3,7 +3,7 @@ v*printf-style callee its value is indeterminate (C11 7.16/3); it may be handed 
 is a fresh va_copy).  fdprintf() formats into the 4 KiB write buffer, and when the text does not fit it flushes and formats again:
 the second formatting must not re-use the consumed list — on x86-64 it reads the arguments from wherever the register save area
 ends, i.e. garbage pointers for %s."""
-from ..facts import lv, show, calls
+from ..facts import lv, show, calls, walk, int_value, strip_casts
 from ..q import backward_scan
 
 
@@ -121,3 +121,67 @@ def r_stale_room(prog, rep, rid):
             else:
                 rep.ok(rid, key, f.loc(defs[0][2]), "`%s` is not used after a flush has moved the fill level" % v, nontrivial=False)
     rep.ok(rid, "fdprnt/fill-level", "src/fdprnt.h", "%d locals derived from the fill level in %d functions; it is moved by %s" % (n, len(fns), ", ".join(sorted(movers))), nontrivial=False)
+
+
+def r_fits(prog, rep, rid):
+    """vsnprintf() returns the length the text *would* have and writes at most `room - 1` bytes of it: the text is whole only when that
+    length is smaller than the room it was given.  fdprintf() is walked with the fill level of the write buffer and the length of the
+    text fixed around the boundary (the text ends exactly at the last byte of the buffer, one short of it, one over): whenever it
+    reports success and advances the fill level by the text's length, the last formatting had room for all of it — otherwise the last
+    byte of a record (or more) is silently cut off in the queue file.  Texts are taken up to 1 100 bytes: the reader drops content
+    lines beyond 1 023 bytes, so no longer field reaches the writer (a single text of exactly the buffer's 4 096 bytes would slip
+    through the last test even on the unchanged tree; nothing the parser admits is that long)."""
+    from ..absw import AbsWalk, eval_in
+    from ..snapshot import AnalysisBroken
+    fs = [f for f in prog.functions.get("fdprintf", []) if f.cfg]
+    if not fs:
+        raise AnalysisBroken("%s: fdprintf not found" % rid)
+    f = fs[0]
+    cfg = f.cfg
+    size = None
+    for b, i, x, line in cfg.all_elems():
+        if isinstance(x, dict):
+            for c in calls(x):
+                if c.get("fn") == "vsnprintf" and len(c.get("a", ())) > 1:
+                    for q in walk(cfg.resolve(c["a"][1])):
+                        if q.get("k") == "bin" and q["op"] == "-" and int_value(q["l"]) is not None:
+                            size = int_value(q["l"])
+                            fill = lv(strip_casts(q["r"]))
+    if size is None:
+        raise AnalysisBroken("%s: the room handed to vsnprintf() is not `sizeof(buffer) - fill`" % rid)
+    bad = []
+    n = 0
+    for bi, tp in ((0, 10), (size - 96, 94), (size - 96, 95), (size - 96, 96), (size - 96, 97), (size - 6, 5), (size - 6, 6), (size - 1, 1),
+                   (size - 1, 0), (size - 1000, 999), (size - 1000, 1000), (size - 1000, 1001), (size - 1024, 1023), (size - 1024, 1024), (size - 1023, 1100)):
+        res = []
+
+        def call_eval(c, store):
+            if c.get("fn") == "vsnprintf":
+                return tp
+            return None
+
+        def effect(b, i, x, store):
+            if not isinstance(x, dict):
+                return None
+            if x.get("k") == "call" and x.get("fn") == "vsnprintf":
+                room = eval_in(store, cfg.resolve(x["a"][1]), f, call_eval)
+                return {"$fit": None if room is None else int(tp < room)}
+            if x.get("k") == "call" and x.get("fn") == "fdflush":
+                return {fill: 0}
+            if x.get("k") == "ret" and x.get("e") is not None:
+                res.append((eval_in(store, cfg.resolve(x["e"]), f, call_eval), store.get("$fit"), store.get(fill)))
+            return None
+        AbsWalk(f, {l_["n"] for l_ in f.locals} | {fill}, init={fill: bi}, effect=effect, call_eval=call_eval, max_states=5000).run()
+        n += 1
+        if len(set(res)) != 1:
+            raise AnalysisBroken("%s: fdprintf with fill %d and a text of %d bytes has no single outcome (%s)" % (rid, bi, tp, res[:3]))
+        rv, fit, after = res[0]
+        if rv == 0 and fit != 1:
+            bad.append("with %d bytes in the buffer a text of %d bytes is reported written although the last formatting had room for %d of them only"
+                       % (bi, tp, (size - (0 if after is not None and after == tp else bi)) - 1))
+    key = "fdprintf/success-means-the-text-fitted"
+    if bad:
+        rep.fail(rid, key, f.loc(), "; ".join(bad[:2]) + ": vsnprintf() cuts the text to fit and the record goes into the queue file without its end",
+                 {"cases": bad})
+    else:
+        rep.ok(rid, key, f.loc(), "%d fill-level/length pairs around the end of the %d-byte buffer: success only when the text fitted" % (n, size))
